@@ -450,9 +450,8 @@ func (m *Machine) mutexUnlock(p *value) {
 func (m *Machine) mutexRLock(p *value) {
 	m.preemptPoint()
 	s := m.mutexOf(p)
-	// Go's RWMutex blocks new readers while a writer is waiting; a recursive RLock can thus
-	// deadlock natively. We model the permissive behaviour (reader admitted unless write-locked).
-	m.block(func() bool { return !s.locked }, "RWMutex.RLock")
+	// like Go's RWMutex: new readers wait while a writer holds the lock or is waiting for it
+	m.block(func() bool { return !s.locked && s.wwait == 0 }, "RWMutex.RLock")
 	s.readers++
 }
 
